@@ -220,6 +220,7 @@ func cmdL1(args []string) error {
 	histFile := ""
 	only := ""
 	restarts, twin := false, false
+	focusFile := "" // a file of histories (one JSON object {"name","history"} per line): run these, every failing tx twin-executed
 	for i := 0; i+1 < len(args); i += 2 {
 		switch args[i] {
 		case "-seed":
@@ -234,6 +235,8 @@ func cmdL1(args []string) error {
 			histFile = args[i+1]
 		case "-only":
 			only = args[i+1]
+		case "-focus":
+			focusFile = args[i+1]
 		case "-invariants":
 			evalInvariants = args[i+1] == "1"
 		case "-restarts":
@@ -249,7 +252,26 @@ func cmdL1(args []string) error {
 		h    History
 	}
 	var items []item
-	if histFile != "" {
+	if focusFile != "" {
+		data, err := os.ReadFile(focusFile)
+		if err != nil {
+			return err
+		}
+		twinAll = true
+		for _, line := range strings.Split(string(data), "\n") {
+			if strings.TrimSpace(line) == "" {
+				continue
+			}
+			var rec struct {
+				Name    string  `json:"name"`
+				History History `json:"history"`
+			}
+			if err := json.Unmarshal([]byte(line), &rec); err != nil {
+				return err
+			}
+			items = append(items, item{rec.Name, rec.History})
+		}
+	} else if histFile != "" {
 		data, err := os.ReadFile(histFile)
 		if err != nil {
 			return err
